@@ -177,6 +177,10 @@ def _rss_gb(pid):
     return 0.0
 
 
+STOP_AFTER_FAILED_UNITS = int(os.environ.get('PYVC_STOP_AFTER_FAILED_UNITS', '24'))
+SKIPPED = []
+
+
 def run_jobs(jobs, njobs, tier):
     """own scheduler: one process per job, hard wall-clock limit per job (solver timeouts are not always honoured)"""
     ctx = mp.get_context('fork')
@@ -186,7 +190,14 @@ def run_jobs(jobs, njobs, tier):
     pending.sort(key=lambda j: order.get(j[0], 9))
     running = []
     results = []
+    failed_units = 0
     while pending or running:
+        if failed_units >= STOP_AFTER_FAILED_UNITS and any(j[0] in ('unit', 'canary') for j in pending):
+            # a tree that breaks this many units is decided: the remaining unit proofs would only add more of the same
+            # (and failing obligations are the expensive ones: every solver runs to its budget)
+            dropped = [j for j in pending if j[0] in ('unit', 'canary')]
+            pending = [j for j in pending if j[0] not in ('unit', 'canary')]
+            SKIPPED.append("%d unit/canary jobs not run: %d units had already failed obligations" % (len(dropped), failed_units))
         while pending and len(running) < njobs:
             job = pending.pop(0)
             pc, cc = ctx.Pipe(duplex=False)
@@ -200,6 +211,9 @@ def run_jobs(jobs, njobs, tier):
             if pc.poll(0):
                 try:
                     results.append(pc.recv())
+                    r_ = results[-1]
+                    if r_[0] == 'unit' and isinstance(r_[2], dict) and r_[2].get('failed'):
+                        failed_units += 1
                 except EOFError:
                     results.append((job[0], job[1], {'timeout': True, 'secs': time.time() - t0, 'why': 'worker died'}))
                 done = True
@@ -356,6 +370,8 @@ def check(args):
     if lean_files:
         results += run_jobs([('lean', lf, opts) for lf in lean_files], args.jobs, tier)
     assumed = list(assumed) + ['axiom:' + a_ for a_ in sorted(used_all) if a_ in reg.axioms]
+    for note in SKIPPED:
+        print("NOTE " + note)
     return report.finish(pid, tier, seed, results, reg, assumed, time.time() - t0, load_known(), match_known)
 
 
